@@ -589,6 +589,76 @@ theorem guarded_inline_step_valueless (st st' : State) (sel : BackendSel) (input
     obtain ⟨p, hp', rfl⟩ := ho
     exact hval p hp'
 
+
+/-- **guarded_nodes_valueless** (all histories). In every reachable state, a node that was constructed
+    without propagating - a sampling operator, a subgraph carrier, an inlined model with control flow, any
+    operator under backend NONE - carries no value on any output, now and in every later state (nodes are
+    only appended). Together with `value_is_input_independent`: a kept value never stems from such a node. -/
+theorem guarded_nodes_valueless (st : State) (h : Reachable Variant.fixed st) :
+    ∀ (idx : Nat) (n : NodeRec), st[idx]? = some n → n.guarded = true → ∀ o ∈ n.outputs, o.value = none := by
+  induction h with
+  | empty => intro idx n hn; simp at hn
+  | @step st st' s _ hs ih =>
+    cases s with
+    | argument key ty =>
+      simp only [step, Except.ok.injEq] at hs
+      subst hs
+      intro idx n hn hg
+      rcases getElem?_snoc st _ idx n hn with h1 | ⟨_, rfl⟩
+      · exact ih idx n h1 hg
+      · cases hg
+    | constant key ty p =>
+      simp only [step, Except.ok.injEq] at hs
+      subst hs
+      intro idx n hn hg
+      rcases getElem?_snoc st _ idx n hn with h1 | ⟨_, rfl⟩
+      · exact ih idx n h1 hg
+      · cases hg
+    | standard sel inputs inNames outs t b sem =>
+      simp only [step] at hs
+      split at hs
+      · cases hs
+      · split at hs
+        · cases hs
+        · rename_i res hres
+          simp only [Except.ok.injEq] at hs
+          subst hs
+          intro idx n hn hg
+          rcases getElem?_snoc st _ idx n hn with h1 | ⟨_, rfl⟩
+          · exact ih idx n h1 hg
+          · have hp : propagates sel t = false := by simpa using hg
+            obtain ⟨res', hres', hval⟩ := guarded_node_valueless sel .standard
+              (mkCtx st inputs inNames outs t.skips) t b rfl hp (mkCtx_fresh _ _ _ _ _)
+            rw [hres] at hres'
+            simp only [Except.ok.injEq] at hres'
+            subst hres'
+            intro o ho
+            simp only [List.mem_map] at ho
+            obtain ⟨p, hp', rfl⟩ := ho
+            exact hval p hp'
+    | inline sel inputs inNames gnames outs t b sem =>
+      simp only [step] at hs
+      split at hs
+      · cases hs
+      · split at hs
+        · cases hs
+        · rename_i res hres
+          simp only [Except.ok.injEq] at hs
+          subst hs
+          intro idx n hn hg
+          rcases getElem?_snoc st _ idx n hn with h1 | ⟨_, rfl⟩
+          · exact ih idx n h1 hg
+          · have hp : propagates sel t = false := by simpa using hg
+            obtain ⟨res', hres', hval⟩ := guarded_node_valueless sel (.inline gnames)
+              (mkCtx st inputs inNames outs t.skips) t b rfl hp (mkCtx_fresh _ _ _ _ _)
+            rw [hres] at hres'
+            simp only [Except.ok.injEq] at hres'
+            subst hres'
+            intro o ho
+            simp only [List.mem_map] at ho
+            obtain ⟨p, hp', rfl⟩ := ho
+            exact hval p hp'
+
 /-- `fold_correct`'s hypothesis asks NOTHING of a node without values: for sampling operators (whose
     run-time result is no function of their inputs - any `sem` whatsoever may stand for one run's draw)
     and control-flow carriers the backend is never assumed to compute the run-time semantics. So
